@@ -1,6 +1,7 @@
 #!/usr/bin/env python3
 """Writes rules/tables/fn_signatures.json from /repo's current tree: the function names the rules were written against."""
 import json, os, sys
+os.environ['PEARL_VERIF_PINNING'] = '1'    # the table is taken from the tree as it is: no re-binding target, nothing inlined
 sys.path.insert(0, '/verif/rules')
 import engine, anchors
 prog = engine.extract()
